@@ -92,7 +92,23 @@ def d_norm(x: Any) -> Any:
     return x
 
 
+_NAMES: dict[Any, list[str]] = {}
+
+
 def type_names(cls: type[DPTBase]) -> list[str]:
+    """Identifiers that denote exactly this class (computed once, from an independent walk of the class tree - not through the
+    lookup under test, whose answers may depend on what it was asked before)."""
+    if not _NAMES:
+        owner: dict[str, list[Any]] = {}
+        for c in all_dpt_classes():
+            vt = getattr(c, "value_type", None)
+            for n in ([str(vt)] if vt else []) + [c.dpt_number_str()]:
+                owner.setdefault(n, []).append(c)
+        for c in all_dpt_classes():
+            vt = getattr(c, "value_type", None)
+            _NAMES[c] = [n for n in ([str(vt)] if vt else []) + [c.dpt_number_str()] if owner[n] == [c]]
+    if cls in _NAMES:
+        return list(_NAMES[cls])
     out = []
     vt = getattr(cls, "value_type", None)
     if vt:
@@ -263,6 +279,25 @@ def w_misc(seed: int) -> Part:
 
     logging.disable(logging.CRITICAL)
     part = Part()
+    # history first: every identifier in other spellings (upper case, title case, padded) - whatever the tools answer for those,
+    # it must be JSON-native, must not raise anything but a declared error, and must not change what the canonical spelling gets later
+    for cls in all_dpt_classes():
+        for ident in type_names(cls):
+            for variant in (ident.upper(), ident.title(), f" {ident} ", ident.replace("_", "-")):
+                if variant == ident:
+                    continue
+                try:
+                    res = run_coro(MT.describe_dpt(variant))
+                except Exception as exc:  # noqa: BLE001
+                    part.viol(exc_sig("describe-raises", exc), f"{variant!r}: {exc!r}", ["describe", variant])
+                    continue
+                part.evaluations += 1
+                for s, d in json_native(res, "describe_dpt"):
+                    part.viol(s, d, ["describe", variant])
+                try:
+                    run_coro(MT.encode_dpt_payload(MY.EncodeDptPayloadInput(value=1, value_type=variant)))
+                except Exception:  # noqa: BLE001
+                    pass
     for cls in all_dpt_classes():
         for ident in type_names(cls) + [cls.dpt_number_str().split(".")[0]]:
             res = run_coro(MT.describe_dpt(ident))
@@ -335,7 +370,11 @@ def w_misc(seed: int) -> Part:
             res = run_coro(MT.send_group_value_read(x, MY.GroupAddressInput(group_address=ga)))
             for s, d in json_native(res, "send_group_value_read"):
                 part.viol(s, d, ["send-read", ga])
-            res = run_coro(MT.send_group_value_write(x, MY.GroupValueWriteInput(group_address=ga, value=21.5, value_type="temperature")))
+            try:
+                res = run_coro(MT.send_group_value_write(x, MY.GroupValueWriteInput(group_address=ga, value=21.5, value_type="temperature")))
+            except Exception as exc:  # noqa: BLE001
+                part.viol(exc_sig("send-tool-escape", exc), f"send_group_value_write({ga}, 21.5, 'temperature'): {exc!r}", ["send-write", ga])
+                continue
             for s, d in json_native(res, "send_group_value_write"):
                 part.viol(s, d, ["send-write", ga])
         w.run(1.0)
